@@ -503,6 +503,10 @@ def x_special(rng):
         ["T", 9, [["T", 1, [["leaf", I(i)] for i in range(5)]], ["ref", 1]]],
         ["L", 9, [["T", 5, []], ["T", 6, []]]],
         ["L", 9, [["L", 100 + i, []] for i in range(300)] + [["ref", 100], ["ref", 370], ["ref", 399]]],
+        # a tuple that contains itself through a list, reached first through the tuple (sorted key order): the
+        # "Subtle" branch of save_tuple (POP * n / POP_MARK + BINGET)
+        ["D", 1, [[S("b"), ["L", 5, [["T", 7, [["ref", 5], ["leaf", I(1)]]]]]], [S("a"), ["ref", 7]]]],
+        ["D", 1, [[S("b"), ["L", 5, [["T", 7, [["ref", 5]] + [["leaf", I(i)] for i in range(4)]]]]], [S("a"), ["ref", 7]]]],
         ["L", 9, [["glob", "join"], ["glob", "join"], ["glob", "int"]]],
         ["T", 9, [["glob", "main_fn"], ["glob", "MainCls"], ["glob", "join"], ["glob", "main_fn"]]],
         ["D", 9, [[S("f"), ["glob", "main_fn"]], [S("g"), ["glob", "json.dumps"]]]],
@@ -516,8 +520,12 @@ def x_special(rng):
         for sh in ([], [0], [3], [2, 3]):
             out.append(arr_spec(rng, dt, sh, "C", "ndarray"))
     for sh in SHAPES:
-        for lay in ("C", "F", "T", "slice", "bcast", "neg"):
-            out.append(arr_spec(rng, ("<i4", 4), sh, lay, "ndarray"))
+        n = 1
+        for x in sh:
+            n *= x
+        data = bytes(rng.choice([0, 1, 2, 127, 128, 255]) for _ in range(4 * n))
+        for lay in ("C", "F", "T", "slice", "bcast", "neg"):       # one buffer, every layout
+            out.append(arr_spec(rng, ("<i4", 4), sh, lay, "ndarray", data))
     for k in ("memmap", "sub"):
         for lay in ("C", "T"):
             out.append(arr_spec(rng, (">i2", 2), [2, 3], lay, k))
@@ -530,9 +538,11 @@ def xcases(rng, n_random):
         cases.append({"x": x, "coerce": False})
         if x[0] == "arr" and x[1]["klass"] != "ndarray":
             cases.append({"x": x, "coerce": True})
-    mm = arr_spec(rng, ("u1", 1), [4], "C", "memmap")
-    cases += [{"x": ["L", 9, [mm, arr_spec(rng, ("u1", 1), [4], "C", "ndarray")]], "coerce": True},
-              {"x": ["L", 9, [mm, arr_spec(rng, ("u1", 1), [4], "C", "ndarray")]], "coerce": False}]
+    mm = arr_spec(rng, ("u1", 1), [4], "C", "memmap", bytes([9, 8, 7, 6]))
+    nd = arr_spec(rng, ("u1", 1), [4], "C", "ndarray", bytes([9, 8, 7, 6]))
+    cases += [{"x": ["L", 9, [mm, nd]], "coerce": True}, {"x": ["L", 9, [mm, nd]], "coerce": False},
+              {"x": mm, "coerce": True, "twin": "mm"}, {"x": nd, "coerce": True, "twin": "nd"},
+              {"x": mm, "coerce": False, "twin": "mm0"}, {"x": nd, "coerce": False, "twin": "nd0"}]
     for _ in range(n_random):
         cases.append({"x": gen_x(rng, 3, _Ids()), "coerce": rng.random() < 0.3})
     return cases
@@ -627,9 +637,13 @@ def coq_xvalue(d, defs=None, stack=()):
                    "; ".join(_zl(e) for e in elems)))
     if t == "ref":
         if d[1] in stack:
-            return {"T": "(XTuple (%d) [])", "L": "(XList (%d) [])", "D": "(XDict (%d) [])"}[d[2]] % d[1]
+            # a list / dict that is still being built is already in the memo: a stub is enough
+            return {"L": "(XList (%d) [])", "D": "(XDict (%d) [])"}[d[2]] % d[1]
         return coq_xvalue(defs[d[1]], defs, stack)
-    st = stack + (d[1],)
+    # tuples are memoised AFTER their items: a tuple reached again from inside itself (through a list or dict)
+    # is saved a second time in full, so it is never a stub; every cycle goes through a list or dict, which ends
+    # the expansion
+    st = stack + (d[1],) if t != "T" else stack
     if t in ("T", "L"):
         return "(%s (%d) [%s])" % ("XTuple" if t == "T" else "XList", d[1], "; ".join(coq_xvalue(c, defs, st) for c in d[2]))
     if t == "D":
@@ -655,7 +669,7 @@ class GenError(Exception):
 OPCODE_NAMES = ["PROTO", "STOP", "NONE", "NEWTRUE", "NEWFALSE", "BININT1", "BININT2", "BININT", "LONG1", "LONG4", "BINFLOAT",
                 "BINUNICODE", "SHORT_BINBYTES", "BINBYTES", "EMPTY_TUPLE", "TUPLE1", "TUPLE2", "TUPLE3", "MARK", "TUPLE",
                 "EMPTY_LIST", "APPEND", "APPENDS", "EMPTY_DICT", "SETITEM", "SETITEMS", "BINPUT", "LONG_BINPUT", "BINGET",
-                "LONG_BINGET", "GLOBAL", "NEWOBJ", "BUILD"]
+                "LONG_BINGET", "GLOBAL", "NEWOBJ", "BUILD", "POP", "POP_MARK"]
 
 
 def _bytes_def(name, b):
@@ -738,7 +752,7 @@ def gen_constants(hashing_path, live):
            "From Coq Require Import ZArith List.", "Import ListNotations.", "Open Scope Z_scope.", ""]
     for o in OPCODE_NAMES:
         out.append("Definition g_%s : Z := %d." % (o, ops[o]))
-    out.append("Definition g_opcodes : list Z := [%s]." % "; ".join("g_" + o for o in OPCODE_NAMES))
+    out.append("Definition g_opcodes : list Z := [%s]." % "; ".join("g_" + o for o in OPCODE_NAMES[:-2]))
     out.append("Definition g_protocol : Z := %d." % protos[0])
     out.append("Definition g_batchsize : Z := %d." % live["batchsize"])
     mod = "joblib.hashing\n"
